@@ -2388,3 +2388,83 @@ def library_const(interp, name, want_ty):
     if re.search(r" as (std::mem::|core::mem::)?SizedTypeProperties>::(ALIGN|SIZE)$", name.strip()):
         return IntV(8, "usize")
     return None
+
+
+# ---------------------------------------------------------------- byte slices (read-only views; entry-list model)
+def _elems(interp, path, v):
+    v = deref(interp, path, v)
+    if v.kind != "struct" or v.ty.startswith("SymLenVec"):
+        raise Refuse("byte-slice view of %r" % (v,))
+    return v
+
+
+@model(r"^array::<impl \[u8; \d+\]>::as_slice$|^<impl \[u8; \d+\]>::as_slice$", "an array viewed as a slice: same elements")
+def m_array_as_slice(interp, path, args, ret_ty, callee):
+    from .interp import _ConstRef
+    return _ConstRef(ret_ty or "&[u8]", _elems(interp, path, args[0]))
+
+
+@model(r"^<(Vec<u8>|\[u8\]|\[u8; \d+\]) as Index<(RangeTo|RangeFrom)<usize>>>::index$",
+       "sub-slice with a concrete bound: the elements before / from that position; a bound past the end panics")
+def m_bytes_index_range(interp, path, args, ret_ty, callee):
+    from .interp import _ConstRef
+    base = _elems(interp, path, args[0])
+    rng = args[1]
+    b = z3.simplify(rng.fields[0].term)
+    if not z3.is_int_value(b):
+        raise Refuse("sub-slice with a symbolic bound")
+    b = b.as_long()
+    n = len(base.fields)
+    if b > n:
+        return [Outcome(path, "panic", msg="range end index %d out of range for slice of length %d" % (b, n))]
+    part = base.fields[:b] if "RangeTo<" in canon(callee) else base.fields[b:]
+    return _ConstRef(ret_ty or "&[u8]", StructV("[u8]", list(part)))
+
+
+@model(r"^(std::|alloc::)?slice::<impl \[&\[u8\]\]>::concat::<u8>$|^<impl \[&\[u8\]\]>::concat::<u8>$",
+       "concatenation of the listed slices, in order")
+def m_slices_concat(interp, path, args, ret_ty, callee):
+    parts = _elems(interp, path, args[0])
+    out = []
+    for p_ in parts.fields:
+        out += list(_elems(interp, path, p_).fields)
+    return StructV("Vec<u8>", out)
+
+
+@model(r"^(std::|alloc::)?slice::<impl \[u8\]>::to_vec$|^<impl \[u8\]>::to_vec$", "a vector with the same elements")
+def m_bytes_to_vec(interp, path, args, ret_ty, callee):
+    return StructV("Vec<u8>", list(_elems(interp, path, args[0]).fields))
+
+
+@model(r"^(radix_rust::)?(slice::)?copy_u8_array::<\d+>$", "radix_rust::copy_u8_array: the N bytes of the slice; any other length panics")
+def m_copy_u8_array(interp, path, args, ret_ty, callee):
+    n = int(re.search(r"copy_u8_array::<(\d+)>$", canon(callee)).group(1))
+    src = _elems(interp, path, args[0])
+    if len(src.fields) != n:
+        return [Outcome(path, "panic", msg="copy_u8_array: slice of length %d into [u8; %d]" % (len(src.fields), n))]
+    return StructV("[u8; %d]" % n, list(src.fields))
+
+
+@model(r"<impl u(16|32|64|128)>::from_(be|le)_bytes$", "the unsigned integer with these big- / little-endian bytes")
+def m_uint_from_bytes(interp, path, args, ret_ty, callee):
+    m = re.search(r"<impl (u\d+)>::from_(be|le)_bytes$", canon(callee))
+    ty, end = m.group(1), m.group(2)
+    bs = [f.term for f in _elems(interp, path, args[0]).fields]
+    if len(bs) * 8 != int(ty[1:]):
+        raise Refuse("from_bytes: %d bytes for %s" % (len(bs), ty))
+    if end == "le":
+        bs = bs[::-1]
+    acc = z3.IntVal(0)
+    for b in bs:
+        acc = acc * 256 + b
+    return IntV(acc, ty)
+
+
+@model(r"<impl u(16|32|64|128)>::to_(be|le)_bytes$", "the big- / little-endian bytes of the unsigned integer")
+def m_uint_to_bytes(interp, path, args, ret_ty, callee):
+    m = re.search(r"<impl (u\d+)>::to_(be|le)_bytes$", canon(callee))
+    ty, end = m.group(1), m.group(2)
+    n = int(ty[1:]) // 8
+    x = args[0].term
+    le = [IntV((x / (256 ** i)) % 256, "u8") for i in range(n)]
+    return StructV("[u8; %d]" % n, le if end == "le" else le[::-1])
